@@ -49,6 +49,47 @@ def py_layout(blk):
                    "encode": enc, "decode": dec}}
 
 
+def reused_block(desc):
+    """The composite block of `desc` built from sub-block objects that were used on their own first: every
+    sub-block is constructed bottom-up and its whole layout is read (which fills any per-factor memo) before the
+    enclosing block is constructed from the same objects."""
+    import copy
+    from . import designs as D
+    top = copy.deepcopy(desc["block"])
+    n = [0]
+
+    def tag(x):
+        for k in ("b", "outer", "inner"):
+            if k in x:
+                x[k]["obj"] = "sub%d" % n[0]
+                n[0] += 1
+                tag(x[k])
+        for y in x.get("bs", []):
+            y["obj"] = "sub%d" % n[0]
+            n[0] += 1
+            tag(y)
+    tag(top)
+    built = D.Built()
+    for f in sorted(desc["factors"], key=lambda f: f["id"]):
+        built.factors[f["id"]] = D.build_factor(desc, f["id"], built)
+    shared = {}
+
+    def visit(x):
+        for k in ("b", "outer", "inner"):
+            if k in x:
+                visit(x[k])
+        for y in x.get("bs", []):
+            visit(y)
+        blk = quiet(D.build_block, desc, x, built, shared)
+        if x is not top:
+            try:
+                quiet(py_layout, blk)
+            except Exception:
+                pass
+        return blk
+    return visit(top)
+
+
 def corr_layout(ctx):
     d = ctx.drv()
     ctx.rules.append("I7: for generated designs (incl. Repeat/Merge/Nest and complex derived factors) "
@@ -56,7 +97,28 @@ def corr_layout(ctx):
                      "_encode_variable for every applicable (trial, factor, level) and decode_variable for every "
                      "variable vs SPModel.Layout, compared exactly")
     n = 0
-    for case in OD.gen_cases(ctx, 20 if not ctx.big() else 120):
+
+    def extra_cases():
+        # Nest / Repeat / Merge over a block with a preamble (a complex-window factor in the outer crossing, sustained
+        # over the inner block): layout only, these designs are not judged by the reference semantics
+        from . import i12_oracle as O
+        A2, S2, S3 = O._sf(0, ["a1", "a2"]), O._sf(10, ["s1", "s2"]), O._sf(10, ["s1", "s2", "s3"])
+        for tr in (O._transition(1, 0, 2), dict(O._transition(1, 0, 2), window={"deps": [0], "width": 2, "stride": 1, "start": 2, "kind": "window"})):
+            outer = {"k": "cross", "design": [0, 1], "crossing": [0, 1], "rcc": True, "cs": []}
+            for inner_f in (S2, S3):
+                inner = {"k": "cross", "design": [10], "crossing": [10], "rcc": True, "cs": []}
+                for align in ("post preamble", None):
+                    yield O.Case(ctx, {"factors": [A2, tr, inner_f], "block": {"k": "nest", "cs": [], "align": align, "outer": outer, "inner": inner}})
+            yield O.Case(ctx, {"factors": [A2, tr], "block": {"k": "repeat", "cs": [{"k": "MinimumTrials", "n": 9}], "b": outer}})
+
+    def all_cases():
+        for c in extra_cases():
+            if c.build():
+                ctx.count("I7.nest-preamble")
+                yield c
+        for c in OD.gen_cases(ctx, 20 if not ctx.big() else 120):
+            yield c
+    for case in all_cases():
         blk = case.fresh_block()
         req = lblock(blk)
         try:
@@ -74,6 +136,19 @@ def corr_layout(ctx):
             ctx.corr_break("I7.layout", req, OD.sample_desc(case), {"python": str(py)[:600], "lean": str(le)[:600]})
             if len(ctx.corr_breaks) > 3:
                 return
+        if case.desc["block"]["k"] in ("repeat", "merge", "nest"):
+            # the same composite, built from sub-blocks that were laid out on their own first: same layout
+            try:
+                blk2 = reused_block(case.desc)
+                req2 = lblock(blk2)
+                py2 = py_layout(blk2)
+            except Exception as e:
+                req2, py2 = req, {"err": type(e).__name__}
+            ctx.count("I7.reused")
+            if req2 != req or py2 != le:
+                ctx.corr_break("I7.layout-reused", req2, OD.sample_desc(case), {"python": str(py2)[:600], "lean": str(le)[:600]})
+                if len(ctx.corr_breaks) > 3:
+                    return
 
 
 class _StubBlock:
